@@ -86,22 +86,55 @@ def parseDecimal (cs : List Char) : Option (Bool × Nat × Nat) :=
   | some n => some (neg, n, 10 ^ fp.length)
   | none => none
 
-/-- Bits the assembler stores for a float DATA value of `len` bytes given its
-decimal text: nearest binary64, then (4 bytes) nearest binary32 of that. -/
-def asmFloat (cs : List Char) (len : Nat) : Option Nat :=
-  match parseDecimal cs with
+/-- Any run of unary `+` / `-` in front of the literal (cmd/asm's `floatExpr` and
+`expr` both recurse on unary signs); the flag is the parity of the minus signs. -/
+def stripSigns : List Char → Bool → Bool × List Char
+  | '-' :: r, neg => stripSigns r (!neg)
+  | '+' :: r, neg => stripSigns r neg
+  | r, neg => (neg, r)
+
+/-- An *integer* literal as cmd/asm reads it (`strconv.ParseUint(s, 0, 64)`):
+`0x` hexadecimal, a leading `0` octal, decimal otherwise; 64 bits at most. -/
+def parseAsmInt (cs : List Char) : Option Nat :=
+  let v := match cs with
+    | ['0'] => some 0
+    | '0' :: 'x' :: r => parseNat 16 r
+    | '0' :: 'X' :: r => parseNat 16 r
+    | '0' :: r => parseNat 8 r
+    | _ => parseNat 10 cs
+  match v with
+  | some n => if n < 2 ^ 64 then some n else none
   | none => none
-  | some (neg, n, d) =>
+
+/-- Bits the assembler stores for a parenthesised DATA value `$(text)` of `len`
+bytes.  The operand is a floating-point constant only if the scanner finds a
+float token, i.e. the literal has a decimal point (`FormatFloat(…, 'f', …)` never
+prints an exponent): then nearest binary64, and for 4 bytes the nearest binary32
+of that.  A literal WITHOUT a decimal point is an integer expression for cmd/asm
+(issue 387): `$(2)` stores the integer 2, not the float 2.0 — the two's
+complement of the signed integer in `len` bytes. -/
+def asmFloat (cs : List Char) (len : Nat) : Option Nat :=
+  let (neg, body) := stripSigns cs false
+  if !(len = 4 ∨ len = 8) then none
+  else if !body.contains '.' then
+    match parseAsmInt body with
+    | none => none
+    | some v =>
+      let i : Int := if neg then -(v : Int) else (v : Int)
+      some (i % (2 ^ (8 * len) : Int)).toNat
+  else
+  match parseDecimal body with
+  | none => none
+  | some (_, n, d) =>
     let m64 := roundMag binary64 n d
     if len = 8 then some (m64 + (if neg then 2 ^ 63 else 0))
-    else if len = 4 then
+    else
       let m32 :=
         if m64 ≥ 2047 * 2 ^ 52 then 255 * 2 ^ 23   -- infinity stays infinity
         else
           let v := magValue binary64 m64
           roundMag binary32 v.1 v.2
       some (m32 + (if neg then 2 ^ 31 else 0))
-    else none
 
 /-- Direct correctly rounded conversion to binary32 (what a single rounding
 would give), for comparison with the assembler's two-step conversion. -/
